@@ -423,6 +423,9 @@ func c02Cell(p vbase.Params, r *vbase.Result, scheme string, cache uint, n, repI
 				}
 			}
 			mut("subquorum-extra-bit", w.assemble(honest(S[:q-1], bBytes), []hotstuff.ID{outsider}, 0), B.View(), B.Hash())
+			// ... or bits for ids that are not configured at all (next id, next byte): they name nobody, they cannot count
+			mut("subquorum-extra-unknown-bit", w.assemble(honest(S[:q-1], bBytes), []hotstuff.ID{hotstuff.ID(n + 1)}, 0), B.View(), B.Hash())
+			mut("subquorum-extra-unknown-bits-next-byte", w.assemble(honest(S[:q-1], bBytes), []hotstuff.ID{hotstuff.ID(n + 9), hotstuff.ID(n + 10)}, 0), B.View(), B.Hash())
 		}
 		mut("trailing-zero-bytes", w.assemble(honest(S, bBytes), nil, 3), B.View(), B.Hash()) // unjudged (same set)
 		if len(S) > q {
@@ -443,6 +446,14 @@ func c02Cell(p vbase.Params, r *vbase.Result, scheme string, cache uint, n, repI
 		}
 		if s, err := crypto.RestoreBLS12AggregateSignature(inf, bf); err == nil {
 			mut("infinity-quorum-set", s, B.View(), B.Hash())
+		}
+		// point at infinity claimed by a quorum of ids none of which is configured
+		var ubf crypto.Bitfield
+		for k := 0; k < q; k++ {
+			ubf.Add(hotstuff.ID(n + 1 + k))
+		}
+		if s, err := crypto.RestoreBLS12AggregateSignature(inf, ubf); err == nil {
+			mut("infinity-unknown-quorum", s, B.View(), B.Hash())
 		}
 	}
 	if q >= 2 {
@@ -548,6 +559,16 @@ func c02Cell(p vbase.Params, r *vbase.Result, scheme string, cache uint, n, repI
 			}
 		}
 		mutT("single-relabelled-as-quorum", w.assemble(honest([]hotstuff.ID{T[0]}, tvb), extra, 0), tv)
+		mutT("subquorum-extra-unknown-bit", w.assemble(honest(T[:q-1], tvb), []hotstuff.ID{hotstuff.ID(n + 1)}, 0), tv)
+		inf := make([]byte, 96)
+		inf[0] = 0xc0
+		var ubf crypto.Bitfield
+		for k := 0; k < q; k++ {
+			ubf.Add(hotstuff.ID(n + 1 + k))
+		}
+		if s, err := crypto.RestoreBLS12AggregateSignature(inf, ubf); err == nil {
+			mutT("infinity-unknown-quorum", s, tv)
+		}
 	}
 	if q >= 2 {
 		mutT("subquorum", w.assemble(honest(T[:q-1], tvb), nil, 0), tv)
@@ -595,6 +616,60 @@ func c02Cell(p vbase.Params, r *vbase.Result, scheme string, cache uint, n, repI
 		} else {
 			present(c02Case{Typ: "AggQC", Class: "honest", Agg: agg}, true)
 			_, _ = warm.Auth.VerifyAggregateQC(agg)
+			// a proposal justified by this aggregate QC (VerifyAnyQC): the block's own QC must be a valid certificate too - a copy
+			// of the aggregate's high QC with the same view, hash and signature BYTES but other claimed signers is not
+			if _, _, best := w.TrueAggQC(agg); best != nil && best.Signature() != nil {
+				if tgt, ok := w.Blocks.Get(best.BlockHash()); ok {
+					parts := Decompose(best.Signature())
+					variants := map[string]hotstuff.QuorumSignature{}
+					if len(parts.Signers) >= 2 {
+						var ps []piece
+						for i, id := range parts.Signers {
+							claim := id
+							if i == 0 {
+								claim = parts.Signers[1]
+							} else if i == 1 {
+								claim = parts.Signers[0]
+							}
+							ps = append(ps, piece{Claim: claim, Src: id, Msg: tgt.ToBytes()})
+						}
+						if scheme != crypto.NameBLS12 {
+							variants["anyqc-swapped-ids"] = w.assemble(ps, nil, 0)
+						}
+						// one signer's label replaced by a replica that did not sign (same signature material)
+						var outsider hotstuff.ID
+						in := map[hotstuff.ID]bool{}
+						for _, id := range parts.Signers {
+							in[id] = true
+						}
+						for _, id := range append(IDs(n), hotstuff.ID(n+1)) {
+							if !in[id] && outsider == 0 {
+								outsider = id
+							}
+						}
+						ps2 := honest(parts.Signers, tgt.ToBytes())
+						ps2[0].Claim = outsider
+						variants["anyqc-relabelled-signer"] = w.assemble(ps2, nil, 0)
+					}
+					for class, vs := range variants {
+						fq := hotstuff.NewQuorumCert(vs, best.View(), best.BlockHash())
+						if verd, _ := w.TrueQC(fq); verd != MustReject {
+							continue
+						}
+						blk := hotstuff.NewBlock(best.BlockHash(), fq, Batch(9, 1, 1), tv+1, T[0])
+						for _, m := range []*Member{warm, cold} {
+							err := m.Auth.VerifyAnyQC(&hotstuff.ProposeMsg{ID: T[0], Block: blk, AggregateQC: &agg})
+							r.Eval(true, fmt.Sprintf("%s/%d/%d/%s/%d", scheme, cache, n, class, m.ID))
+							r.Obs("anyqc_presented", 1)
+							if err == nil {
+								r.Violate(vbase.Sig("cert-sound", "type", "AnyQC", "class", class, "scheme", scheme, "cache", cacheTag),
+									fmt.Sprintf("VerifyAnyQC accepted a proposal whose block QC has the view, hash and signature bytes of the aggregate's high QC but claims other signers (%s, n=%d, cache %d)", class, n, cache),
+									map[string]any{"scheme": scheme, "cache": cache, "n": n, "class": class})
+							}
+						}
+					}
+				}
+			}
 		}
 	}
 	mutA := func(class string, qcs map[hotstuff.ID]hotstuff.QuorumCert, sig hotstuff.QuorumSignature, view hotstuff.View) {
